@@ -30,6 +30,7 @@ import (
 	"github.com/ExocoreNetwork/exocore/utils"
 	assetstypes "github.com/ExocoreNetwork/exocore/x/assets/types"
 	delegationtypes "github.com/ExocoreNetwork/exocore/x/delegation/types"
+	operatorkeeper "github.com/ExocoreNetwork/exocore/x/operator/keeper"
 	operatortypes "github.com/ExocoreNetwork/exocore/x/operator/types"
 )
 
@@ -153,6 +154,10 @@ var atomClass = [][3]string{
 	{"oracle.UpdateNSTByBalanceChange", "effective balance should never", "balance range(2)"},
 	{"oracle.UpdateNSTByBalanceChange", "stakerInfo does not exist", "stakerInfo(2)!=nil"},
 	{"reward.claimReward", "", "RewardForWithdraw"},
+	{"msg.optIn", "public key is not required", "PublicKeyJSON"},
+	{"msg.optIn", "invalid public key", "PublicKeyJSON"},
+	{"msg.optIn", "", "OptIn/OptInWithConsKey"},
+	{"msg.optOut", "", "OptOut"},
 	{"avs.registerOperatorToAVS", "avs does not exist", "IsAVS"},
 	{"avs.deregisterOperatorFromAVS", "avs does not exist", "IsAVS"},
 	{"avs.registerOperatorToAVS", "invalid operator address", "IsOperator"},
@@ -437,7 +442,7 @@ func (h *atomH) step() {
 	c := h.c
 	gw := h.caller()
 	bad := r.Chance(1, 3)
-	switch r.Pick(10, 6, 6, 5, 8, 6, 3, 3, 3, 3, 3, 4, 3, 3, 3, 2, 3, 4) {
+	switch r.Pick(10, 6, 6, 5, 8, 6, 3, 3, 3, 3, 3, 4, 3, 3, 3, 2, 3, 4, 4) {
 	case 0: // depositLST
 		amt := h.amount(6)
 		ak, sb, cid := 0, h.stakerBytes(false), h.chainID(false)
@@ -667,6 +672,9 @@ func (h *atomH) step() {
 			func(ctx sdk.Context) error { return c.App.OperatorKeeper.UpdateVotingPower(ctx, avs) })
 	case 16: // signed messages
 		h.msgStep()
+	case 18: // the operator msg server driven directly (as the repository's suites do): its own cache context is then the
+		// only thing between a failing second step and the store
+		h.msgServerStep()
 	case 17: // AVS precompile createTask: from the AVS (= its own task address) or a non-AVS address, sender argument owner / non-owner;
 		// the AVS has no voting power until an operator opted in and UpdateVotingPower ran, so most owner calls are refused
 		// AFTER the owner check (voting power) — nothing, in particular no task id, may be consumed
@@ -686,6 +694,70 @@ func (h *atomH) step() {
 	}
 	if r.Chance(1, 12) {
 		h.block(time.Duration(1+r.Intn(3)) * time.Second)
+	}
+}
+
+// opX is the account the harness turns into a registered operator with enough self delegation to opt into the chain AVS.
+func (h *atomH) opX() Actor { return h.others[1] }
+
+// prepareOpX registers opX as an operator and gives it 150 USDT of self delegation (deposit, associate, delegate).
+func (h *atomH) prepareOpX() {
+	c, x := h.c, h.opX()
+	srv := operatorkeeper.NewMsgServerImpl(c.App.OperatorKeeper)
+	h.keeper("msg.registerOperator", "msgserver RegisterOperator "+x.Acc.String(), func(ctx sdk.Context) error {
+		_, e := srv.RegisterOperator(sdk.WrapSDKContext(ctx), &operatortypes.RegisterOperatorReq{FromAddress: x.Acc.String(), Info: &operatortypes.OperatorInfo{
+			EarningsAddr: x.Acc.String(), ApproveAddr: x.Acc.String(), OperatorMetaInfo: "opX", Commission: stakingtypes.NewCommission(sdk.ZeroDec(), sdk.ZeroDec(), sdk.ZeroDec())}})
+		return e
+	})
+	gw, st := c.Funded.Eth, pad32(x.Eth.Bytes())
+	h.evm("assets.depositLST", gw, xbAssetsAddr, h.abis.assets, "depositLST", uint32(c.LzID), h.assetBytes(0), st, big.NewInt(200_000_000))
+	h.evm("delegation.associateOperatorWithStaker", gw, xbDelegAddr, h.abis.deleg, "associateOperatorWithStaker", uint32(c.LzID), st, []byte(x.Acc.String()))
+	h.lzNonce++
+	h.evm("delegation.delegate", gw, xbDelegAddr, h.abis.deleg, "delegate", uint32(c.LzID), h.lzNonce, h.assetBytes(0), st, []byte(x.Acc.String()), big.NewInt(150_000_000))
+}
+
+// optInDirect / optOutDirect call the operator msg server on the deliver context without any outer cache.
+func (h *atomH) optInDirect(who Actor, avs, keyJSON, what string) string {
+	srv := operatorkeeper.NewMsgServerImpl(h.c.App.OperatorKeeper)
+	return h.keeper("msg.optIn", fmt.Sprintf("msgserver OptIntoAVS from=%s avs=%s key=%s", who.Acc, avs, what), func(ctx sdk.Context) error {
+		_, e := srv.OptIntoAVS(sdk.WrapSDKContext(ctx), &operatortypes.OptIntoAVSReq{FromAddress: who.Acc.String(), AvsAddress: avs, PublicKeyJSON: keyJSON})
+		return e
+	})
+}
+
+func (h *atomH) optOutDirect(who Actor, avs string) string {
+	srv := operatorkeeper.NewMsgServerImpl(h.c.App.OperatorKeeper)
+	return h.keeper("msg.optOut", fmt.Sprintf("msgserver OptOutOfAVS from=%s avs=%s", who.Acc, avs), func(ctx sdk.Context) error {
+		_, e := srv.OptOutOfAVS(sdk.WrapSDKContext(ctx), &operatortypes.OptOutOfAVSReq{FromAddress: who.Acc.String(), AvsAddress: avs})
+		return e
+	})
+}
+
+func (h *atomH) msgServerStep() {
+	r, c := h.rng, h.c
+	who := h.opX()
+	if r.Chance(1, 5) {
+		who = h.others[0] // not an operator
+	}
+	avs := c.AVSAddr
+	if r.Chance(1, 4) {
+		avs = h.others[0].Eth.String() // the non-chain AVS registered by the harness
+	}
+	if r.Chance(1, 3) {
+		h.optOutDirect(who, avs)
+		return
+	}
+	switch r.Intn(5) {
+	case 0, 1: // a consensus key another operator is using: OptIn succeeds, the key step refuses
+		i := r.Intn(len(c.ConsKeys))
+		h.optInDirect(who, avs, c.ConsKeys[i].ToJSON(), fmt.Sprintf("inUseBy-operator%d", i))
+	case 2:
+		h.optInDirect(who, avs, "{not json", "malformed")
+	case 3:
+		h.optInDirect(who, avs, "", "none")
+	default:
+		k, _ := NewConsKey(c.Cfg.Seed, "fresh", r.Intn(4))
+		h.optInDirect(who, avs, k.ToJSON(), "fresh")
 	}
 }
 
@@ -772,6 +844,20 @@ func (h *atomH) directed() {
 		h.keeper("operator.Slash", fmt.Sprintf("keeper Slash #%d id=%s prop=%s contract=%q", i, p.SlashID, p.SlashProportion, p.SlashContract),
 			func(ctx sdk.Context) error { return c.App.OperatorKeeper.Slash(ctx, p) })
 	}
+	// msg server driven directly: OptIntoAVS of a qualified operator into the chain AVS with a consensus key that is in
+	// use (OptIn succeeds, SetOperatorConsKeyForChainID refuses), malformed key, key for a non-chain AVS; then a
+	// successful opt-in, an opt-out, and an opt-in while the key removal is pending
+	h.prepareOpX()
+	h.optInDirect(h.opX(), c.AVSAddr, c.ConsKeys[0].ToJSON(), "inUseBy-operator0")
+	h.optInDirect(h.opX(), c.AVSAddr, "{not json", "malformed")
+	h.optInDirect(h.opX(), h.others[0].Eth.String(), c.ConsKeys[1].ToJSON(), "keyForNonChainAVS")
+	fresh, _ := NewConsKey(c.Cfg.Seed, "fresh", 9)
+	h.optInDirect(h.opX(), c.AVSAddr, fresh.ToJSON(), "fresh")
+	h.optInDirect(h.opX(), c.AVSAddr, fresh.ToJSON(), "fresh-again")
+	h.optOutDirect(h.opX(), c.AVSAddr)
+	h.optOutDirect(h.opX(), c.AVSAddr)
+	fresh2, _ := NewConsKey(c.Cfg.Seed, "fresh", 10)
+	h.optInDirect(h.opX(), c.AVSAddr, fresh2.ToJSON(), "fresh-whileRemovalPending")
 	// createTask refused after the owner check (the AVS has no voting power) and at the owner check: no task id may be consumed
 	h.evm("avs.createTask", h.others[0].Eth, xbAvsAddr, h.abis.avs, "createTask", h.others[0].Eth, "task", []byte("task-hash"), uint64(2), uint64(2), uint64(60), uint64(1))
 	h.evm("avs.createTask", h.others[0].Eth, xbAvsAddr, h.abis.avs, "createTask", h.stakers[0].Eth, "task", []byte("task-hash"), uint64(2), uint64(2), uint64(60), uint64(1))
@@ -849,6 +935,7 @@ func domAtomic(env *Env) error {
 		for i, s := range h.stakers {
 			h.evm("assets.depositLST", h.c.Funded.Eth, xbAssetsAddr, h.abis.assets, "depositLST", uint32(h.c.LzID), h.assetBytes(0), pad32(s.Eth.Bytes()), big.NewInt(int64(50+i)*1_000_000))
 		}
+		h.prepareOpX()
 		for i := 0; i < steps; i++ {
 			h.step()
 		}
